@@ -38,6 +38,10 @@ class Contract:
         self.dropped_scan = None      # callable(dropped stmts) -> None | reason (syntactic frame of the rest)
         self.exc_ensures = []         # (exc type, name, expr over exc_arg) checked on raising paths
         self.raise_only_if = {}       # exc type -> expr (necessary condition for raising)
+        # verify(): heap writes of the body stay within `modifies`.  None = decide at
+        # verification time: checked when this contract is also the call-site contract of its
+        # function in the same engine (that is where a missing modifies entry is unsound)
+        self.check_frame = None
 
     # builder API ------------------------------------------------------------
     def req(self, expr):
@@ -495,9 +499,14 @@ def verify(E, contract, variant=None, setup=None):
                 node2 = _copy.copy(fref.node)
                 node2.body = kept
                 run_ref = FuncRef(fref.module, fref.qualname, node2, fref.cls)
-                res.notes.append(f"{contract.key}: verified text is the first {len(kept)} top-level statements "
-                                 f"of the body (mechanical slice, lines {kept[0].lineno}-{kept[-1].end_lineno}); "
-                                 f"the {len(dropped)} statements after it are covered by a syntactic frame scan only")
+                if getattr(contract, "slice_desc", None):
+                    res.notes.append(f"{contract.key}: {contract.slice_desc} ({len(dropped)} statements dropped "
+                                     f"mechanically: lines {sorted(d.lineno for d in dropped)}; they are covered "
+                                     f"by a syntactic frame scan only)")
+                else:
+                    res.notes.append(f"{contract.key}: verified text is the first {len(kept)} top-level statements "
+                                     f"of the body (mechanical slice, lines {kept[0].lineno}-{kept[-1].end_lineno}); "
+                                     f"the {len(dropped)} statements after it are covered by a syntactic frame scan only")
                 if contract.dropped_scan is not None:
                     why = contract.dropped_scan(dropped)
                     E.oblige(st, "slice.rest_frame", z3.BoolVal(why is None), kind="frame",
@@ -538,6 +547,16 @@ def verify(E, contract, variant=None, setup=None):
                     for name, e in contract.must_fail:
                         f = spec_formula(E, s, e, {"result": v}, old_state=entry)
                         E.oblige(s, f"mustfail.{name}", f, kind="mustfail", meta={"ensures": e})
+                # frame: heap writes are within the modifies clause (what call sites havoc),
+                # and a contract that is pure at call sites emits nothing
+                if contract.check_frame or (contract.check_frame is None and E.contracts.get(contract.key) is contract
+                                            and contract.call_effect is None) \
+                        or (contract.check_frame is None and contract.call_effect is None
+                            and E.contracts.get(contract.key) is not None
+                            and not getattr(E.contracts[contract.key], "assumed", False)):
+                    bad = frame_violations(E, entry, s, contract, frame)
+                    E.oblige(s, "frame.modifies", z3.BoolVal(not bad), kind="frame",
+                             meta={"writes_outside_modifies": bad, "modifies": list(contract.modifies)})
                 # frame: module-level mutable state untouched
                 for gk, gv in entry.globals.items():
                     if isinstance(gv, Ref) and isinstance(entry.heap.get(gv.addr), ListCell):
@@ -585,6 +604,63 @@ def verify(E, contract, variant=None, setup=None):
         E.prefix = saved_prefix
     res.obligations = E.obligations[start:]
     return res
+
+
+def frame_violations(E, entry, s, contract, frame):
+    """heap cells that existed on entry and differ at this exit, outside the modifies clause.
+    Objects allocated by the body are its own business; paths handled by a havoc model
+    (token stream, history, scope chain...) allow the cells that model replaces."""
+    from .loops import LoopSpec, allowed_writes
+    from .values import ObjCell
+    spec = LoopSpec(modifies=list(contract.modifies))
+    entry.frames.append(dict(frame))
+    try:
+        allowed = allowed_writes(E, entry, spec)
+    finally:
+        entry.frames.pop()
+    models = {a[1] for a in allowed if a[0] == "model"}
+    # a modifies path naming an attribute whose value is a container allows the container
+    # (a call site replaces the attribute by a fresh value, so everything that was reachable
+    # only through it is out of the caller's sight: the whole object graph below is allowed)
+    whole = set()
+
+    def reach(v):
+        if isinstance(v, SOpt):
+            reach(v.val)
+        elif isinstance(v, tuple):
+            for x in v:
+                reach(x)
+        elif isinstance(v, Ref) and v.addr not in whole:
+            whole.add(v.addr)
+            c = entry.heap.get(v.addr)
+            if isinstance(c, ObjCell):
+                for x in c.attrs.values():
+                    reach(x)
+            elif hasattr(c, "items") and isinstance(getattr(c, "items"), (list, tuple)):
+                for x in c.items:
+                    reach(x)
+    for a in list(allowed):
+        if a[0] != "model" and a[1] != "*":
+            c = entry.heap.get(a[0])
+            reach(c.attrs.get(a[1]) if isinstance(c, ObjCell) else None)
+    bad = []
+    for addr, cell0 in entry.heap.items():
+        cell1 = s.heap.get(addr)
+        if cell1 is cell0 or addr in whole or (addr, "*") in allowed:
+            continue
+        if isinstance(cell0, ObjCell) and isinstance(cell1, ObjCell):
+            for a in sorted(set(cell0.attrs) | set(cell1.attrs)):
+                if cell0.attrs.get(a) is not cell1.attrs.get(a) and (addr, a) not in allowed:
+                    if a.startswith("__cache"):
+                        continue
+                    bad.append(f"{cell0.cls if isinstance(cell0.cls, str) else getattr(cell0.cls, 'name', cell0.cls)}.{a}")
+            continue
+        if models:
+            continue            # replaced by a declared havoc model (stream / history / ...)
+        bad.append(cell0.__class__.__name__)
+    if contract.pure and s.ghost.get("emitted") is not entry.ghost.get("emitted"):
+        bad.append("emits diagnostics although the contract is pure at call sites")
+    return sorted(set(bad))
 
 
 # attach to Engine
